@@ -60,6 +60,8 @@ pub struct Def {
 }
 
 const ENVV: &str = "BPAFMC_N";
+/// a second, alias, variable of the env-backed item: consulted when the first one is unset
+const ENVV2: &str = "BPAFMC_N2";
 
 #[derive(Clone, Copy, PartialEq, Eq)]
 enum Ty6 {
@@ -111,7 +113,7 @@ fn prim_p(p: Prim) -> P {
         Prim::ArgParse => P::Parse(P::arg(names, Ty::Str).bx(), ParseK::ToU32),
         Prim::ArgGuard => P::Guard(P::arg(names, Ty::U32).bx(), GuardK::Lt10),
         Prim::Pos => P::pos(Ty::U32),
-        Prim::EnvArg => P::arg(names.env(ENVV), Ty::U32),
+        Prim::EnvArg => P::arg(names.env(ENVV).env(ENVV2), Ty::U32),
     }
 }
 fn apply(w: Wr, p: P) -> P {
@@ -388,17 +390,23 @@ fn env_clause(d: &Def, unit: &Value, p: &bpaf::OptionParser<Val>, ctx: &mut Ctx)
     }
     // absent from the line, variable holds an invalid value: same conversion, same failure
     for (val, frag) in [(&b"x"[..], "invalid digit found in string"), (&b""[..], "cannot parse integer from empty string"), (&b"1\xff"[..], "is not a valid utf8")] {
-        std::env::set_var(ENVV, Tok(val.to_vec()).os());
+        // through the first variable, and through the second one with the first unset
+        for var in [ENVV, ENVV2] {
+        std::env::remove_var(ENVV);
+        std::env::remove_var(ENVV2);
+        std::env::set_var(var, Tok(val.to_vec()).os());
         let argv: Vec<Tok> = if d.ctx == Ctx6::InCommand { toks(&["cmd"]) } else if d.ctx == Ctx6::InAdjacent { toks(&["--grp"]) } else { vec![] };
         ctx.s.evaluations += 1;
         let r = run(p, &argv);
         std::env::remove_var(ENVV);
+        std::env::remove_var(ENVV2);
         if has_catch(&d.stack) {
             continue;
         }
         match &r {
             Outcome::Stderr(t) if d.ctx == Ctx6::AltBranch || t.contains(frag) => ctx.count("invalid-variable-rejected"),
-            _ => ctx.violation(viol("present-but-invalid-fails", d, unit, "invalid-env", &argv, &argv, format!("stderr with {:?}", frag), &r)),
+            _ => ctx.violation(viol("present-but-invalid-fails", d, unit, "invalid-env", &argv, &argv, format!("stderr with {:?} ({} = {:?})", frag, var, String::from_utf8_lossy(val)), &r)),
+        }
         }
     }
 }
